@@ -44,6 +44,16 @@ func (x *Exec) errIsTerm(e, t string) string {
 
 // libCall returns a model result for known library functions.
 func (x *Exec) libCall(fr *Frame, st *State, key string, callee *ssa.Function, args []V, rt types.Type, pos token.Pos) (V, bool) {
+	if strings.HasPrefix(key, "sync/atomic.(*") && len(args) >= 1 {
+		if v, ok := x.atomicCall(fr, st, key, args, rt, pos); ok {
+			return v, true
+		}
+	}
+	if strings.HasPrefix(key, "encoding/binary.(bigEndian).") || strings.HasPrefix(key, "encoding/binary.(littleEndian).") {
+		if v, ok := x.binaryCall(fr, st, key, args, rt, pos); ok {
+			return v, true
+		}
+	}
 	switch key {
 	case "errors.New":
 		x.errPrelude()
@@ -173,6 +183,173 @@ func (x *Exec) libCall(fr *Frame, st *State, key string, callee *ssa.Function, a
 	return V{}, false
 }
 
+// binaryCall models encoding/binary's fixed-width big/little-endian helpers
+// exactly (byte values by div/mod), so that codecs built on them can be
+// reasoned about. args[0] is the (empty struct) byte-order receiver.
+func (x *Exec) binaryCall(fr *Frame, st *State, key string, args []V, rt types.Type, pos token.Pos) (V, bool) {
+	if x.s.bv {
+		return V{}, false
+	}
+	big := strings.Contains(key, "(bigEndian)")
+	meth := key[strings.LastIndex(key, ".")+1:]
+	width := 0
+	for _, w := range []int{16, 32, 64} {
+		if strings.HasSuffix(meth, fmt.Sprintf("Uint%d", w)) {
+			width = w / 8
+		}
+	}
+	if width == 0 {
+		return V{}, false
+	}
+	byteOf := func(v string, i int) string { // i-th byte in memory order
+		k := i
+		if big {
+			k = width - 1 - i
+		}
+		return fmt.Sprintf("(mod (div %s %s) 256)", v, pow2(8*k).String())
+	}
+	x.trust("encoding/binary fixed-width helpers (PutUintN / AppendUintN / UintN) modelled exactly")
+	switch {
+	case strings.HasPrefix(meth, "AppendUint"):
+		var elems []string
+		for i := 0; i < width; i++ {
+			elems = append(elems, byteOf(args[2].S, i))
+		}
+		return x.appendElems(st, args[1], elems), true
+	case strings.HasPrefix(meth, "PutUint"):
+		b := args[1]
+		x.check(fr, st, pos, "index", fmt.Sprintf("(>= (s_len %s) %d)", b.S, width))
+		et := b.T.Underlying().(*types.Slice).Elem()
+		keyS := heapKeySlice(et)
+		sarr := x.heapGet(st, keyS, et)
+		row := "(select " + sarr + " (s_base " + b.S + "))"
+		for i := 0; i < width; i++ {
+			row = fmt.Sprintf("(store %s (+ (s_off %s) %d) %s)", row, b.S, i, byteOf(args[2].S, i))
+		}
+		x.heapSet(st, keyS, et, "(store "+sarr+" (s_base "+b.S+") "+row+")")
+		return V{T: rt}, true
+	case strings.HasPrefix(meth, "Uint"):
+		b := args[1]
+		x.check(fr, st, pos, "index", fmt.Sprintf("(>= (s_len %s) %d)", b.S, width))
+		var parts []string
+		for i := 0; i < width; i++ {
+			k := i
+			if big {
+				k = width - 1 - i
+			}
+			el := x.sliceElem(st, b, fmt.Sprint(i))
+			x.assume(st.guard, "(and (<= 0 "+el+") (<= "+el+" 255))")
+			parts = append(parts, "(* "+el+" "+pow2(8*k).String()+")")
+		}
+		return V{T: rt, S: x.define("be", "Int", "(+ "+strings.Join(parts, " ")+")")}, true
+	}
+	return V{}, false
+}
+
+// appendElems models append(s, e0, e1, ...) for explicitly given element terms.
+func (x *Exec) appendElems(st *State, s V, elems []string) V {
+	sl := s.T.Underlying().(*types.Slice)
+	et := sl.Elem()
+	key := heapKeySlice(et)
+	k := len(elems)
+	n := x.define("an", "Int", fmt.Sprintf("(+ (s_len %s) %d)", s.S, k))
+	fits := x.define("fits", "Bool", "(<= "+n+" (s_cap "+s.S+"))")
+	sarr := x.heapGet(st, key, et)
+	fresh := x.newRef(st)
+	newCap := x.s.declare("newcap", "Int")
+	x.assume("true", "(and (>= "+newCap+" "+n+") (<= "+newCap+" 9223372036854775807))")
+	x.assume(st.guard, "(<= "+n+" 9223372036854775807)")
+	dstBase := x.define("ab", "Int", ite(fits, "(s_base "+s.S+")", fresh))
+	dstOff := x.define("ao", "Int", ite(fits, "(s_off "+s.S+")", "0"))
+	na := x.s.declare("arr", "(Array Int "+x.s.sortOf(et)+")")
+	oldDst := "(select " + sarr + " " + dstBase + ")"
+	srcOld := "(select " + sarr + " (s_base " + s.S + "))"
+	x.assume(st.guard, fmt.Sprintf("(forall ((ai! Int)) (! (=> (and (or %s (<= %s ai!)) (< ai! (+ %s (s_len %s)))) (= (select %s ai!) (ite %s (select %s ai!) (select %s (+ (s_off %s) (- ai! %s)))))) :pattern ((select %s ai!))))",
+		fits, dstOff, dstOff, s.S, na, fits, oldDst, srcOld, s.S, dstOff, na))
+	// in place: everything outside the appended window is unchanged
+	x.assume(st.guard, fmt.Sprintf("(forall ((ai! Int)) (! (=> (and %s (>= ai! (+ %s %s))) (= (select %s ai!) (select %s ai!))) :pattern ((select %s ai!))))", fits, dstOff, n, na, oldDst, na))
+	for j, e := range elems {
+		x.assume(st.guard, fmt.Sprintf("(= (select %s (+ %s (s_len %s) %d)) %s)", na, dstOff, s.S, j, e))
+	}
+	x.heapSet(st, key, et, "(store "+sarr+" "+dstBase+" "+na+")")
+	res := x.define("sl", "Slice", "(mk_slice "+dstBase+" "+dstOff+" "+n+" "+ite(fits, "(s_cap "+s.S+")", newCap)+")")
+	return V{T: s.T, S: res}
+}
+
+// atomicCall models the typed atomics (atomic.Uint64, Int64, Uint32, Int32, Bool)
+// with sequential semantics: the value lives in the struct's field `v`.
+func (x *Exec) atomicCall(fr *Frame, st *State, key string, args []V, rt types.Type, pos token.Pos) (V, bool) {
+	rest := strings.TrimPrefix(key, "sync/atomic.(*")
+	i := strings.Index(rest, ").")
+	if i < 0 {
+		return V{}, false
+	}
+	typ, meth := rest[:i], rest[i+2:]
+	switch typ {
+	case "Uint64", "Int64", "Uint32", "Int32", "Bool":
+	default:
+		return V{}, false
+	}
+	recv := args[0]
+	if pt, ok := x.ptrTerm(recv); ok && recv.Pl == nil {
+		x.check(fr, st, pos, "nil-deref", "(not (= "+pt+" 0))")
+	}
+	pl := x.placeOf(recv)
+	stT, ok := pl.Type().Underlying().(*types.Struct)
+	if !ok {
+		return V{}, false
+	}
+	fi := -1
+	for j := 0; j < stT.NumFields(); j++ {
+		if stT.Field(j).Name() == "v" {
+			fi = j
+		}
+	}
+	if fi < 0 {
+		return V{}, false
+	}
+	ft := stT.Field(fi).Type()
+	fpl := pl.extend(PathSel{Field: fi, T: ft, From: pl.Type()})
+	x.trust("sync/atomic typed values are modelled with sequential semantics (a plain field read/write); interleavings with other goroutines are not modelled")
+	cur := x.loadPlace(st, fpl)
+	isBool := typ == "Bool"
+	boolOf := func(v V) V { return V{T: types.Typ[types.Bool], S: "(not (= " + v.S + " 0))"} }
+	toStored := func(v V) string {
+		if isBool {
+			return ite(v.S, "1", "0")
+		}
+		return v.S
+	}
+	switch meth {
+	case "Load":
+		if isBool {
+			return boolOf(cur), true
+		}
+		return V{T: rt, S: cur.S}, true
+	case "Store":
+		x.storePlace(st, fpl, toStored(args[1]))
+		return V{T: rt}, true
+	case "Swap":
+		x.storePlace(st, fpl, toStored(args[1]))
+		if isBool {
+			return boolOf(cur), true
+		}
+		return V{T: rt, S: cur.S}, true
+	case "Add":
+		if isBool {
+			return V{}, false
+		}
+		nv := x.binop(fr, st, token.ADD, V{T: ft, S: cur.S}, V{T: ft, S: args[1].S}, ft, pos)
+		x.storePlace(st, fpl, nv.S)
+		return V{T: rt, S: nv.S}, true
+	case "CompareAndSwap":
+		eq := x.define("cas", "Bool", "(= "+cur.S+" "+toStored(args[1])+")")
+		x.storePlace(st, fpl, ite(eq, toStored(args[2]), cur.S))
+		return V{T: rt, S: eq}, true
+	}
+	return V{}, false
+}
+
 // errorOperands finds the error-typed operands of a variadic ...any argument
 // (SSA pattern: alloc [n]any; store boxed operands; slice).
 func (x *Exec) errorOperands(fr *Frame, va ssa.Value) []string {
@@ -214,6 +391,26 @@ func (x *Exec) errorOperands(fr *Frame, va ssa.Value) []string {
 
 // libMods: heap effects of modelled library calls (for loop/function mod sets).
 func (x *Exec) libMods(key string, cc *ssa.CallCommon) ([]modTarget, bool) {
+	if (strings.HasPrefix(key, "encoding/binary.(bigEndian).") || strings.HasPrefix(key, "encoding/binary.(littleEndian).")) && len(cc.Args) >= 2 {
+		meth := key[strings.LastIndex(key, ".")+1:]
+		if strings.HasPrefix(meth, "Uint") {
+			return nil, true
+		}
+		if sl, ok := cc.Args[1].Type().Underlying().(*types.Slice); ok && (strings.HasPrefix(meth, "AppendUint") || strings.HasPrefix(meth, "PutUint")) {
+			return []modTarget{{key: heapKeySlice(sl.Elem()), t: sl.Elem()}}, true
+		}
+	}
+	if strings.HasPrefix(key, "sync/atomic.(*") && len(cc.Args) >= 1 {
+		for _, t := range []string{"Uint64", "Int64", "Uint32", "Int32", "Bool"} {
+			if strings.HasPrefix(key, "sync/atomic.(*"+t+").") {
+				if strings.HasSuffix(key, ".Load") {
+					return nil, true
+				}
+				k, tt, _ := storeKey(cc.Args[0])
+				return []modTarget{{key: k, t: tt}}, true
+			}
+		}
+	}
 	switch key {
 	case "errors.New", "fmt.Errorf", "errors.Is", "errors.Join", "slices.Equal", "bytes.Equal", "strings.Contains", "strings.HasPrefix", "strings.HasSuffix",
 		"strings.EqualFold", "strings.TrimSpace", "strings.ToLower", "strings.ToUpper", "strings.TrimSuffix", "strings.TrimPrefix", "time.Now",
